@@ -56,7 +56,7 @@ BASE = {"g96": 28, "xyz": 22, "lammpstrj": 12, "trr": 16, "gmxframe": 14,
 
 def plan(tier, seed):
     rng = random.Random(f"C19-{seed}")
-    njobs, scale = (32, 6) if tier == "quick" else (192, 24)
+    njobs, scale = (32, 4) if tier == "quick" else (192, 20)
     return [{"seed": rng.randrange(2 ** 31), "scale": scale,
              "hashseed": rng.randrange(1000)} for _ in range(njobs)]
 
